@@ -22,8 +22,23 @@ class TaskError(ValueError):
     pass
 
 
+class TwoArgError(Exception):
+    """an exception class whose instances pickle but cannot be un-pickled (required constructor arguments that are not passed on to
+    Exception.__init__) — the commonest way a library exception breaks when it crosses a process boundary"""
+
+    def __init__(self, value, why):
+        super().__init__("task %d failed" % value)
+        self.value, self.why = value, why
+
+
 def task(delay, value, fail, equilibrium=None, psi=None, f_R=None, f_Z=None, scale=1):
     time.sleep(delay)
+    if fail == "ctor2":
+        raise TwoArgError(value, "x")
+    if fail == "local":
+        class LocalError(Exception):     # cannot be pickled at all
+            pass
+        raise LocalError("task %d failed" % value)
     if fail:
         raise TaskError("task %d failed" % value)
     return value * scale
